@@ -151,9 +151,15 @@ def main(argv=None):
         print("  mechanism: %s  (%d observations)" % (mech, viol_counts[mech]))
         if wit:
             print("  witness:   %s" % str(wit["message"])[:600])
+    printed = set()
     for mech in known_seen:
-        print("KNOWN-FINDING: property=%s %s [%s, %d observations]" % (
-            prop, open_by_mech[mech]["what_fails"], mech, viol_counts[mech]))
+        k = open_by_mech[mech]
+        if k["id"] in printed:
+            continue
+        printed.add(k["id"])
+        mechs = [m for m in known_seen if open_by_mech[m]["id"] == k["id"]]
+        print("KNOWN-FINDING: property=%s %s [%s; %s; %d observations]" % (
+            prop, k["what_fails"], k["id"], ", ".join(mechs), sum(viol_counts[m] for m in mechs)))
     for k in known:
         if k.get("status") == "open" and not a.replay and not any(
                 m in known_seen for m in [k["mechanism"]] + list(k.get("also_mechanisms", []))):
